@@ -591,6 +591,11 @@ func (v *visitor) ConditionalNode(node *ast.ConditionalNode) reflect.Type {
 	if t1 == nil && t2 == nil {
 		return nilType
 	}
+	if isInterface(t2) {
+		// Every type is assignable to interface{}: the result may be either
+		// arm, so its type is not the first arm's.
+		return interfaceType
+	}
 	if t1.AssignableTo(t2) {
 		return t1
 	}
